@@ -38,6 +38,9 @@ type sigPlan struct {
 }
 
 type evCase struct {
+	base     []byte // the built event without any signature
+	unrel    *world.Server
+	baseDesc string
 	ev       gmsl.PDU
 	required []*world.Server
 	plans    map[spec.ServerName][]sigPlan
@@ -82,6 +85,10 @@ func bodyC06(r *sim.Run) {
 	nev := t.Range(1, 3)
 	var cases []*evCase
 	for i := 0; i < nev; i++ {
+		if i > 0 && t.Chance(300) {
+			cases = append(cases, w.cloneCase(impl, cases[i-1]))
+			continue
+		}
 		cases = append(cases, w.buildCase(impl, A, B, C, D, E))
 	}
 	// time passes before verification; keys may rotate meanwhile
@@ -251,7 +258,37 @@ func (w *kworld) buildCase(impl gmsl.IRoomVersion, A, B, C, D, E *world.Server) 
 	if c.ts.Before(time.Unix(1, 0)) {
 		c.ts = time.Unix(1, 0)
 	}
-	// the origin's signature is made by Build; its plan decides the key
+	ev, err := world.Build(impl, p, c.ts, origin.Name, origin.Current())
+	if err != nil {
+		r.Violate("C06", "build", "error", "EventBuilder.Build failed for %s: %v", c.desc, err)
+	}
+	var obj map[string]json.RawMessage
+	json.Unmarshal(ev.JSON(), &obj)
+	delete(obj, "signatures")
+	c.base, _ = json.Marshal(obj)
+	c.unrel = D
+	c.baseDesc = c.desc
+	w.signCase(impl, c)
+	return c
+}
+
+// cloneCase makes a second PDU with the same content (hence, in room versions
+// 3+, the same event ID; in 1-2 the same sender-chosen ID) but an independently
+// drawn signature plan: a batch may carry two such PDUs and each must be judged
+// on its own signatures.
+func (w *kworld) cloneCase(impl gmsl.IRoomVersion, c0 *evCase) *evCase {
+	c := &evCase{ver: c0.ver, plans: map[spec.ServerName][]sigPlan{}, base: c0.base, unrel: c0.unrel, baseDesc: c0.baseDesc + " [same event, other signatures]",
+		required: c0.required, ts: c0.ts}
+	w.r.Probe("batch_with_two_pdus_sharing_an_event_id")
+	w.signCase(impl, c)
+	return c
+}
+
+// signCase applies a tape-chosen signature plan for every required server to
+// the unsigned base event.
+func (w *kworld) signCase(impl gmsl.IRoomVersion, c *evCase) {
+	r, t := w.r, w.r.T
+	D := c.unrel
 	plan := func(sv *world.Server) sigPlan {
 		k := sv.Current()
 		pl := sigPlan{server: sv, keyID: k.ID, priv: k.Priv, signer: k, kind: "current"}
@@ -276,17 +313,11 @@ func (w *kworld) buildCase(impl gmsl.IRoomVersion, A, B, C, D, E *world.Server) 
 		}
 		return pl
 	}
-	op := plan(origin)
-	buildKey := &world.Key{ID: op.keyID, Priv: op.priv}
-	ev, err := world.Build(impl, p, c.ts, origin.Name, buildKey)
+	ev, err := impl.NewEventFromTrustedJSON(c.base, false)
 	if err != nil {
-		r.Violate("C06", "build", "error", "EventBuilder.Build failed for %s: %v", c.desc, err)
+		r.Violate("C06", "build", "reparse", "re-parse of unsigned event failed: %v", err)
 	}
-	c.plans[origin.Name] = append(c.plans[origin.Name], op)
 	for _, sv := range c.required {
-		if sv == origin {
-			continue
-		}
 		pl := plan(sv)
 		c.plans[sv.Name] = append(c.plans[sv.Name], pl)
 		if pl.kind != "absent" {
@@ -304,25 +335,26 @@ func (w *kworld) buildCase(impl gmsl.IRoomVersion, A, B, C, D, E *world.Server) 
 			}
 		}
 	}
-	if _, isReq := req[D.Name]; !isReq && t.Chance(300) {
-		ev = ev.Sign(string(D.Name), D.Current().ID, sim.Pick(t, [][]byte{D.Current().Priv, A.Current().Priv}))
+	isReq := false
+	for _, sv := range c.required {
+		if sv == D {
+			isReq = true
+		}
+	}
+	if !isReq && t.Chance(300) {
+		ev = ev.Sign(string(D.Name), D.Current().ID, sim.Pick(t, [][]byte{D.Current().Priv, c.required[0].Current().Priv}))
 		r.Probe("unrelated_signature")
 	}
-	// apply absent / corrupt to the JSON
+	// apply corruption to the JSON
 	var obj map[string]json.RawMessage
 	json.Unmarshal(ev.JSON(), &obj)
-	var sigs map[string]map[string]string
-	json.Unmarshal(obj["signatures"], &sigs)
+	sigs := map[string]map[string]string{}
+	if raw, ok := obj["signatures"]; ok {
+		json.Unmarshal(raw, &sigs)
+	}
 	for _, n := range sortedNames(c.plans) {
 		for _, pl := range c.plans[spec.ServerName(n)] {
-			switch {
-			case pl.kind == "absent":
-				if len(c.plans[spec.ServerName(n)]) == 1 {
-					delete(sigs, n)
-				} else {
-					delete(sigs[n], string(pl.keyID))
-				}
-			case pl.corrupt:
+			if pl.corrupt {
 				var b spec.Base64Bytes
 				b.Decode(sigs[n][string(pl.keyID)])
 				b[t.Intn(len(b))] ^= 1 << uint(t.Intn(8))
@@ -343,9 +375,8 @@ func (w *kworld) buildCase(impl gmsl.IRoomVersion, A, B, C, D, E *world.Server) 
 			ps = append(ps, n+"="+pl.kind)
 		}
 	}
-	c.desc += fmt.Sprintf(" ts=%d signers[%s]", spec.AsTimestamp(c.ts), strings.Join(ps, " "))
+	c.desc = c.baseDesc + fmt.Sprintf(" ts=%d signers[%s]", spec.AsTimestamp(c.ts), strings.Join(ps, " "))
 	r.Logf("t=%v built %s", r.Now(), c.desc)
-	return c
 }
 
 func hasKeyID(ps []sigPlan, id gmsl.KeyID) bool {
